@@ -82,6 +82,7 @@ def base_registry(src: Source, T: Types) -> Registry:
     reg.enums["pynenc.invocation.status:InvocationStatus"] = T.Status
     reg.enums["pynenc.conf.config_task:ConcurrencyControlType"] = T.CCType
     reg.records["pynenc.invocation.status:InvocationStatusRecord"] = T.Record
+    reg.dropped_calls.append(re.compile(r"^(time\.)?sleep$"))   # waiting has no effect on the state under contract
     # exception hierarchy from the real file
     mod = src.module("pynenc.exceptions")
     for node in mod.tree.body:
